@@ -21,7 +21,7 @@ RULE = ('product of kind (6) x spelling (24; plus 4 unusual entry names for the 
         'spellings that do not name x); non-trivial = the run went past argument screening (a trash-dir candidate was '
         'examined or the entry moved), distinct = outcome class x spelling x option x layout')
 
-NAMES_X = ['n.trashinfo', ' s p ', '-dash', 'nl\nx']
+NAMES_X = ['n.trashinfo', ' s p ', '-dash', 'nl\nx', '100%s %d%', '.dot']
 SPELL_X = ['x', '/abs/x', './x', 'd/../x', 'x/', 'x//', './/x', 'sd/../x', 'sdv/../x', 'ld/x', 'ldv/x', 'ld/../w/x']
 SPELL_DOT = ['.', '..', './', '../', 'd/.', 'd/..', 'd/./', 'd/../', 'sd/..', '/mnt/v2', '/mnt/v2/', '', 'nonexistent',
              'd']
@@ -51,7 +51,7 @@ def cases(tier):
                     out.append({'kind': k, 'sp': sp, 'opt': o, 'lay': lay})
             for sp in SPELL_DOT:
                 out.append({'kind': 'file', 'sp': sp, 'opt': o, 'lay': lay})
-            if o in ('-', '-f', 'td-same', 'hf-both'):
+            if o in ('-', '-f', 'td-same', 'hf-both', '-v', '-vv'):
                 for nm in NAMES_X:
                     for k in ('file', 'tree', 'ldang'):
                         out.append({'kind': k, 'sp': './x', 'opt': o, 'lay': lay, 'name': nm})
